@@ -192,10 +192,24 @@ def size_bound(e):
     return 1
 
 
+def tractable(e):
+    """Every sub-expression expands to at most 40 terms and every power has a base of at most 6
+    terms (TLC's denotation of ** enumerates the subsets of the base)."""
+    if e[0] in ("v", "lit", "neg1", "one"):
+        return True
+    if size_bound(e) > 40:
+        return False
+    if e[0] == "pow":
+        return size_bound(e[1]) <= 6 and tractable(e[1])
+    if e[0] == "grp":
+        return tractable(e[1]) and tractable(e[2])
+    return tractable(e[2]) and tractable(e[3])
+
+
 def gen_rhs(rng, depth):
     while True:
         f = _gen_rhs(rng, depth)
-        if size_bound(f) <= 80:
+        if tractable(f):
             return f
 
 
